@@ -1,6 +1,7 @@
 (* Corr/C20.v — case type and predicates of the C20 correspondence.
    A case is a GROUP of calls (they are run concurrently by the implementation runner because the retry loop
-   sleeps for real).  Each call carries: the operation and its arguments, the server script, what the Python
+   sleeps for real); an item of the group may be a SEQUENCE of calls issued one after the other on one client
+   instance.  Each call carries: the operation and its arguments, the server script, what the Python
    generator independently expects on the wire (method, request target, identity of the named resource), and the
    implementation's observation (request log, number of client.Do round trips, result class). *)
 From Verif Require Import Base.Bytes Model.Client Src.SrcClient Base.Wire.
@@ -111,8 +112,10 @@ Definition call_spec_fail (c : ccall) : bool :=
       (* token and revision tag *)
       || (negb (String.eqb (cc_token c) "")
           && existsb (fun r => negb (String.eqb (rq_auth r) ("token " +++ cc_token c))) reqs)
-      || (negb (String.eqb (cc_tag c) "")
-          && existsb (fun r => negb (String.eqb (rq_etag r) (cc_tag c) || String.eqb (rq_ifmatch r) (cc_tag c))) reqs)
+      (* the tag header is exactly the tag given to THIS call: in one of the two header slots, nothing in the other;
+         both absent when no tag was given (a tag left over from an earlier call of the same client is a failure) *)
+      || existsb (fun r => negb ((String.eqb (rq_etag r) (cc_tag c) && String.eqb (rq_ifmatch r) "")
+                                 || (String.eqb (rq_etag r) "" && String.eqb (rq_ifmatch r) (cc_tag c)))) reqs
       || fst (diag_rule c o)
   end.
 
@@ -243,9 +246,18 @@ Definition dec_call (x : sexp) : option ccall :=
   | _ => None
   end.
 
+(* an item of a group is a call or a sequence of calls run on ONE client instance; the model's prediction for a
+   call does not depend on what ran before it (C20_sequence_requests_independent), so sequences are flattened *)
+Definition dec_item (x : sexp) : option (list ccall) :=
+  match x with
+  | SList (Atom "seq" :: calls) => map_opt dec_call calls
+  | _ => match dec_call x with Some c => Some [c] | None => None end
+  end.
+
 Definition decode (x : sexp) : option case :=
   match x with
-  | SList (Atom "grp" :: calls) => map_opt dec_call calls
+  | SList (Atom "grp" :: items) =>
+      match map_opt dec_item items with Some ls => Some (concat ls) | None => None end
   | _ => None
   end.
 
